@@ -1,8 +1,8 @@
 CONSTANTS
-  MaxLen = 4
-  RandN = 1
-  RandLen = 1
-INIT Init
+  MaxLen = 1
+  RandN = 40
+  RandLen = 8
+INIT InitRandom
 NEXT Next
 INVARIANTS C06_NoOpenRedirect EmitCase
 CHECK_DEADLOCK FALSE
